@@ -545,6 +545,30 @@ func c16Case(r *mon.Run, raw string, e, n *int64) {
 			r.Violation("redact-stale-cred:"+mon.Q(raw), fmt.Sprintf("RedactUserinfo of the same *url.URL (%s) with other credentials gives a different text", mon.Q(raw)), map[string]any{"raw": raw})
 		}
 	}
+	// the result belongs to the caller: edited (a redirect target built from it, a path appended), it must not show
+	// up in the result of a later call for the same, unchanged input
+	{
+		u := *base
+		u.User = creds[4].info()
+		q1 := urlutil.RedactUserinfo(&u)
+		want := ""
+		if q1 != nil {
+			want = q1.String()
+			q1.Path, q1.RawPath, q1.RawQuery, q1.Host, q1.Fragment, q1.RawFragment = q1.Path+"/edited-by-caller", "", "edited=1", "edited.example", "edited", ""
+			q1.User = url.UserPassword("edited", "edited")
+		}
+		in := u
+		q2 := urlutil.RedactUserinfo(&u)
+		u2 := *base
+		u2.User = creds[4].info()
+		q3 := urlutil.RedactUserinfo(&u2) // an equal URL value at another address
+		*e += 2
+		switch {
+		case q1 == nil || q2 == nil || q3 == nil:
+		case q2.String() != want || q3.String() != want || !reflect.DeepEqual(withoutUser(q2), withoutUser(&in)):
+			r.Violation("redact-edited:"+mon.Q(raw), fmt.Sprintf("RedactUserinfo(%s) = %q the first time; after the caller edited that result, the same input gives %q and an equal URL %q (same *url.URL as the first result: %v / %v)", mon.Q(raw), want, q2.String(), q3.String(), q2 == q1, q3 == q1), map[string]any{"raw": raw})
+		}
+	}
 	if mask != "xxxxx:xxxxx" {
 		r.Violation("redact-mask", fmt.Sprintf("the mask is %q, not the fixed xxxxx:xxxxx", mask), map[string]any{"raw": raw})
 	}
